@@ -22,14 +22,26 @@ def sel(pool, idx, key):
     return acc
 
 
-def h_schedule(ctx, frags, events, body):
+def h_schedule(ctx, frags, events, body, via="queue"):
     """frags: fragments per sender, e.g. [3, 2]; body: bytes per fragment"""
     from circuitpython_nrf24l01.network.structs import RF24NetworkFrame, FrameQueueFrag
     from vsym.core import SBytes
-    me = ctx.int("to_node", 0, 0xFFF)
+    node = radio = None
+    if via == "update":
+        # the same schedule delivered through a real node: radio RX FIFO -> update() -> the node's own queue
+        from checks.c04 import new_net
+        from checks.common import fresh_env
+        clock = fresh_env(ctx)
+        radio, node = new_net(clock, 0o2)
+        me = 0o2
+    else:
+        me = ctx.int("to_node", 0, 0xFFF)
     msgs, pool = [], []
     for s, f in enumerate(frags):
         origin = ctx.int("origin%d" % s, 0, 0xFFF)
+        if via == "update":
+            from specs import net_spec as NS
+            ctx.assume(s_and(NS.valid(origin), origin != me))
         fid = ctx.int("id%d" % s, 0, 0xFFFF)
         for m in msgs:  # different senders, or two messages of one sender (which then carry different frame ids)
             ctx.assume(s_or(origin != m["origin"], fid != m["id"]))
@@ -37,7 +49,7 @@ def h_schedule(ctx, frags, events, body):
         data = blist(ctx.bytes("msg%d" % s, f * body))
         msgs.append(dict(origin=origin, id=fid, type=mtype, data=data))
         pool.extend(FS.fragments(origin, me, fid, mtype, data, frag_size=body))
-    q = FrameQueueFrag()
+    q = FrameQueueFrag() if node is None else node.queue
     frame = RF24NetworkFrame()
     delivered = []
     # ghost (reference, strict, single cache): progress[s] = fragments of sender s accepted in order since its
@@ -63,7 +75,14 @@ def h_schedule(ctx, frags, events, body):
             setattr(frame.header, k, sel(pool, pick, k))
         msg = [sel(pool, pick, ("b", j)) for j in range(body)]
         frame.message = SBytes(msg) if ctx.symbolic else bytes(msg)
-        q.enqueue(frame)
+        if node is None:
+            q.enqueue(frame)
+        else:
+            h = frame.header
+            wire = [h.from_node & 0xFF, h.from_node >> 8, me & 0xFF, me >> 8, h.frame_id & 0xFF, h.frame_id >> 8,
+                    h.message_type, h.reserved] + msg
+            radio.inject_rx(1 + ev % 5, wire)
+            node.update()
         if len(q) and bool(ctx.bool("dequeue%d" % ev)):
             while len(q):
                 delivered.append(q.dequeue())
@@ -123,6 +142,9 @@ def jobs(tier):
     for frags, events in plan:
         out.append(Job("symbolic-delivery-schedule", h_schedule, dict(frags=frags, events=events, body=2),
                        cost=len(frags) * events ** 2, shards=(1 if tier == "quick" or events < 5 else 8)))
+    for frags, events in (([2], 3), ([3], 3), ([2, 2], 3)) if tier == "quick" else (([2], 4), ([3], 5), ([2, 2], 5), ([3, 2], 4), ([4], 5)):
+        out.append(Job("symbolic-delivery-schedule-through-update", h_schedule, dict(frags=frags, events=events, body=2, via="update"),
+                       cost=4 * len(frags) * events ** 2, shards=4))
     for n in ((25, 48, 49, 96, 121, 137, 144) if tier == "quick" else range(25, 145)):
         out.append(Job("in-order-stream-is-delivered", h_inorder, dict(n=n)))
     return out
@@ -131,7 +153,7 @@ def jobs(tier):
 META = {
     "bounds": {"quick": "1-2 senders x 2-4 fragments, 3-5 delivery events, every event a symbolic pick from the fragment pool, "
                         "symbolic dequeue points, symbolic origins/ids (may coincide)/types 0..127/contents, 2-byte fragment "
-                        "bodies; plus real-size in-order streams for messages of 25..144 bytes",
+                        "bodies; the same schedules ([2], [3], [2,2] x 3 events) delivered through a real node's radio and update(); plus real-size in-order streams for messages of 25..144 bytes",
                "thorough": "up to 3 senders (4 events), up to 7 fragments, up to 6 events for one sender / two 2-fragment senders, 5 otherwise"},
     "outside": ["more than 3 senders / 7 fragments / 6 events", "more than one message per (origin, frame id); two messages of one origin carry different frame ids (each header gets a fresh id)",
                 "original message types above 127 (NETWORK_EXT_DATA 131 is propagated by reference, see structs.py)",
